@@ -27,7 +27,7 @@ from .. import tlc
 from ..common import MachineryError, main_wrapper
 from ..scalar import Cx
 from . import c16 as base
-from .c16 import Finding, ForeignArgument, Slots, Uni, World, assemble, by_key, call, form_arguments, keyed_diff, pred_tab, zero_tab
+from .c16 import Finding, ForeignArgument, Slots, Uni, World, assemble, by_key, call, keyed_diff, pred_tab
 
 PID = "C22"
 KNOWN_LINEAR = "C22:linear-form-mixedelement-returns-kxk-duplicated-rows"
@@ -38,32 +38,48 @@ def universes(tier):
     f, W2 = ("f", ()), ("W", (2,))
     EB = ("extract_blocks",)
     noacts = ("two", "w_u", "w_v", "w_u0", "w_u1", "w_u2", "w_v0", "w_v1", "w_v2")
+    deep_ops = {"add", "sub", "mul", "div", "neg", "inner", "dot", "index", "conj", "list"}
     out = [
         # MixedElement, 2 sub-elements (scalar, vector), same space on both sides
         Uni("me2", "element", [(), (2,)], [(), (2,)], [f, W2], {"add", "mul", "inner"}, 2, EB, exclude=noacts + ("v", "u", "v[1]", "v[2]", "u[1]", "u[2]")),
-        # two integrals, whole mixed arguments and their components
-        Uni("me2-int", "element", [(), (2,)], [(), (2,)], [f], {"add", "mul"}, 2, EB, keypairs=[(1, 2), (3, 4)], exclude=noacts + ("v_1", "u_1", "v[2]", "u[2]") + (("u", "u[1]") if q else ())),
-        # 3 sub-elements
-        Uni("me3", "element", [(), (), (2,)], [(), (), (2,)], [f], {"add", "mul", "inner"}, 2, EB, exclude=noacts + ("v", "u", "v[2]", "v[3]", "u[2]", "u[3]")),
         # different mixed spaces on the two sides (2 x 3 sub-elements)
-        Uni("me-rect", "element", [(), (2,)], [(), (), ()], [f], {"add", "mul", "index"}, 2, EB, exclude=noacts + ("v", "u")),
+        Uni("me-rect", "element", [(), (2,)], [(), (), ()], [f], {"add", "mul"} if q else {"add", "mul", "index"}, 2, EB, exclude=noacts + ("v", "u")),
         # mixed test space, ordinary trial space
         Uni("me-plain", "element", [(), ()], [()], [f], {"add", "mul"}, 2, EB, exclude=noacts + ("v",), uplain=True),
-        # MixedFunctionSpace of 2 and 3 spaces
+        # MixedFunctionSpace of 2 spaces; different test / trial spaces (2 x 3), two integrals
         Uni("ms2", "space", [(), (2,)], [(), (2,)], [f, W2], {"add", "mul", "inner", "index"}, 2, EB, exclude=noacts),
-        Uni("ms3", "space", [(), (), (2,)], [(), (), (2,)], [f], {"add", "mul", "inner"}, 2, EB, exclude=noacts),
         Uni("ms-rect", "space", [(), (2,)], [(2,), (), ()], [f], {"add", "mul", "index"}, 2, EB, keypairs=[(1, 2)], exclude=noacts),
     ]
+    if q:
+        # 3 sub-spaces, two integrals, deeper terms: sampled programs, purely bilinear / linear by
+        # construction (drawn here with ctx.seed, validated and predicted by TLC)
+        out += [
+            Uni("sample-me", "element", [(), (2,)], [(), (2,)], [f, W2], deep_ops, 0, EB, keypairs=[(1, 2), (3, 4)], exclude=noacts, simulate=500, depth=4),
+            Uni("sample-me3", "element", [(), (2,), ()], [(), (2,), ()], [f, W2], deep_ops, 0, EB, keypairs=[(1, 2)], exclude=noacts, simulate=400, depth=4),
+            Uni("sample-ms3", "space", [(), (2,), ()], [(), (2,), ()], [f, W2], deep_ops, 0, EB, keypairs=[(1, 2)], exclude=noacts, simulate=400, depth=4),
+        ]
+    else:
+        out += [
+            # two integrals, whole mixed arguments and their components
+            Uni("me2-int", "element", [(), (2,)], [(), (2,)], [f], {"add", "mul"}, 2, EB, keypairs=[(1, 2), (3, 4)], exclude=noacts + ("v_1", "u_1", "v[2]", "u[2]")),
+            # 3 sub-spaces
+            Uni("me3", "element", [(), (), (2,)], [(), (), (2,)], [f], {"add", "mul", "inner"}, 2, EB, exclude=noacts + ("v", "u", "v[2]", "v[3]", "u[2]", "u[3]")),
+            Uni("ms3", "space", [(), (), (2,)], [(), (), (2,)], [f], {"add", "mul", "inner"}, 2, EB, exclude=noacts),
+        ]
     if not q:
         out += [
-            Uni("me2-3", "element", [(), (2,)], [(), (2,)], [f], {"add", "mul", "inner"}, 3, EB, exclude=noacts + ("v", "u", "v[1]", "v[2]", "u[1]", "u[2]")),
-            Uni("me3-3", "element", [(), (), ()], [(), (), ()], [f], {"add", "mul"}, 3, EB, exclude=noacts + ("v", "u")),
-            Uni("ms2-3", "space", [(), ()], [(), ()], [f], {"add", "sub", "mul"}, 3, EB, keypairs=[(1, 2)], exclude=noacts),
-            Uni("ms3-3", "space", [(), (), ()], [(), (), ()], [f], {"add", "mul"}, 3, EB, exclude=noacts),
-            Uni("deep-me", "element", [(), (2,)], [(), (2,)], [f, W2], {"add", "sub", "mul", "div", "inner", "dot", "index", "conj", "neg"}, 0, EB, keypairs=[(1, 2), (3, 4)], exclude=noacts, simulate=6000, depth=6),
-            Uni("deep-me3", "element", [(), (2,), ()], [(), (2,), ()], [f, W2], {"add", "sub", "mul", "inner", "dot", "index", "conj"}, 0, EB, keypairs=[(1, 2)], exclude=noacts, simulate=5000, depth=5),
-            Uni("deep-ms", "space", [(), (2,)], [(), (2,)], [f, W2], {"add", "sub", "mul", "div", "inner", "dot", "index", "conj", "neg"}, 0, EB, keypairs=[(1, 2), (3, 4)], exclude=noacts, simulate=6000, depth=6),
-            Uni("deep-ms3", "space", [(), (2,), ()], [(), (2,), ()], [f, W2], {"add", "sub", "mul", "inner", "dot", "index", "conj"}, 0, EB, keypairs=[(1, 2)], exclude=noacts, simulate=5000, depth=5),
+            Uni("me2-3", "element", [(), ()], [(), ()], [f], {"add", "mul"}, 3, EB, exclude=noacts + ("v", "u")),
+            Uni("ms2-3", "space", [(), ()], [(), ()], [f], {"add", "mul"}, 3, EB, exclude=noacts),
+            # sampled deeper programs, purely bilinear / linear by construction (drawn here with
+            # ctx.seed, validated and predicted by TLC)
+            Uni("deep-me", "element", [(), (2,)], [(), (2,)], [f, W2], deep_ops, 0, EB, keypairs=[(1, 2), (3, 4)], exclude=noacts, simulate=3500, depth=6),
+            Uni("deep-me-b", "element", [(2,), ()], [(2,), ()], [f, W2], deep_ops, 0, EB, keypairs=[(1, 2), (1, 1)], exclude=noacts, simulate=3500, depth=6),
+            Uni("deep-me3", "element", [(), (2,), ()], [(), (2,), ()], [f, W2], deep_ops, 0, EB, keypairs=[(1, 2)], exclude=noacts, simulate=3000, depth=5),
+            Uni("deep-me-rect", "element", [(), (2,)], [(), (), (2,)], [f, W2], deep_ops, 0, EB, keypairs=[(1, 2)], exclude=noacts, simulate=2000, depth=5),
+            Uni("deep-ms", "space", [(), (2,)], [(), (2,)], [f, W2], deep_ops, 0, EB, keypairs=[(1, 2), (3, 4)], exclude=noacts, simulate=3500, depth=6),
+            Uni("deep-ms-b", "space", [(2,), ()], [(2,), ()], [f, W2], deep_ops, 0, EB, keypairs=[(1, 2), (1, 1)], exclude=noacts, simulate=3500, depth=6),
+            Uni("deep-ms3", "space", [(), (2,), ()], [(), (2,), ()], [f, W2], deep_ops, 0, EB, keypairs=[(1, 2)], exclude=noacts, simulate=3000, depth=5),
+            Uni("deep-ms-rect", "space", [(), (2,)], [(2,), (), ()], [f, W2], deep_ops, 0, EB, keypairs=[(1, 2)], exclude=noacts, simulate=2000, depth=5),
         ]
     return out
 
